@@ -108,7 +108,24 @@ def _translate(e, cache, apps):
     return r
 
 
+_NL_CACHE = {}  # term id -> (term kept alive, bool): per-term memo of the scan below (pure speed-up)
+
+
 def has_nonlinear(terms):
+    out = False
+    for t in terms:
+        k = t.get_id()
+        c = _NL_CACHE.get(k)
+        if c is None:
+            c = (t, _has_nonlinear([t]))
+            _NL_CACHE[k] = c
+        if c[1]:
+            out = True
+            break
+    return out
+
+
+def _has_nonlinear(terms):
     seen = set()
     todo = list(terms)
     while todo:
